@@ -12,8 +12,9 @@ from typing import (
     Union,
 )
 
-from apischema.cache import CacheAwareDict
+from apischema.cache import CacheAwareDict, reset
 from apischema.conversions import Conversion, deserializer, serializer
+from apischema.conversions.converters import _deserializers, _serializers
 from apischema.metadata.keys import DISCRIMINATOR_METADATA
 from apischema.objects import object_fields
 from apischema.type_names import get_type_name
@@ -110,6 +111,21 @@ class Discriminator(MetadataMixin):
             ),
             source=cls,
         )
+        # the alternatives are the subclasses: a subclass defined after a first use is
+        # a new alternative (the two lazy conversions are evaluated again, the compiled
+        # methods are dropped)
+        lazy_conversions = [_deserializers[cls][-1], _serializers[cls]]
+        inherited_hook = cls.__init_subclass__
+
+        def __init_subclass__(sub_cls, **kwargs):
+            inherited_hook.__func__(sub_cls, **kwargs) if hasattr(
+                inherited_hook, "__func__"
+            ) else inherited_hook(**kwargs)
+            for lazy in lazy_conversions:
+                lazy.get.cache_clear()
+            reset()
+
+        cls.__init_subclass__ = classmethod(__init_subclass__)  # type: ignore
         return cls
 
 
